@@ -381,6 +381,10 @@ class SymEval:
             if len(args) == 1 and isinstance(args[0], int) and not isinstance(args[0], bool) and p.split("::")[-1] == "from" and \
                     p.split("::")[-2:-1] and p.split("::")[-2] in ("usize", "u32", "u64", "u16", "u8", "i32", "i64", "Word"):
                 return args[0]
+            if p.split("::")[-2:] == ["iter", "once"] and len(args) == 1:
+                return ("list", [args[0]])
+            if p.split("::")[-2:] == ["iter", "empty"] and not args:
+                return ("list", [])
             if p in ("String::new", "::alloc::string::String::new", "std::string::String::new"):
                 return ("fmt", [])
             if p in ("Vec::new", "::alloc::vec::Vec::new", "std::vec::Vec::new", "vec::Vec::new") and not args:
@@ -843,6 +847,61 @@ class SymEval:
                 if m == "filter":
                     return ("list", res)
                 return NONE if m in ("find", "position", "find_map") else (m == "all")
+            if m in ("split", "splitn") and len(args) in (1, 2):
+                pred = args[-1]
+                limit = args[0] if m == "splitn" else None
+                out, cur = [], []
+                for i_, x in enumerate(items):
+                    if limit is not None and len(out) + 1 >= limit:
+                        cur = list(items[i_:]) if not cur else cur + list(items[i_:])
+                        break
+                    t = self.apply(pred, [x])
+                    if not isinstance(t, bool):
+                        self.fail("undecided predicate in %s" % m, e)
+                    if t:
+                        out.append(("list", cur))
+                        cur = []
+                    else:
+                        cur.append(x)
+                out.append(("list", cur))
+                return ("list", out)
+            if m == "chunks" and len(args) == 1 and isinstance(args[0], int):
+                if args[0] == 0:
+                    raise Panic("chunks(0)")
+                return ("list", [("list", items[i:i + args[0]]) for i in range(0, len(items), args[0])])
+            if m == "windows" and len(args) == 1 and isinstance(args[0], int):
+                if args[0] == 0:
+                    raise Panic("windows(0)")
+                return ("list", [("list", items[i:i + args[0]]) for i in range(0, max(len(items) - args[0] + 1, 0))])
+            if m in ("starts_with", "ends_with") and len(args) == 1 and isinstance(args[0], tuple) and args[0][0] == "list":
+                o = list(args[0][1])
+                seg = items[:len(o)] if m == "starts_with" else (items[len(items) - len(o):] if len(o) <= len(items) else None)
+                if seg is None or len(seg) != len(o):
+                    return False
+                res = True
+                for x, y in zip(seg, o):
+                    r_ = self.h.binary("==", x, y, None)
+                    if r_ is NotImplemented:
+                        if self.concrete(x) and self.concrete(y):
+                            r_ = (x == y)
+                        else:
+                            self.fail("undecided element comparison in %s" % m, e)
+                    if not r_:
+                        res = False
+                        break
+                return res
+            if m == "take" and len(args) == 1 and isinstance(args[0], int):
+                return ("list", items[:args[0]])
+            if m == "take_while" and len(args) == 1:
+                out = []
+                for x in items:
+                    t = self.apply(args[0], [x])
+                    if not isinstance(t, bool):
+                        self.fail("undecided predicate in take_while", e)
+                    if not t:
+                        break
+                    out.append(x)
+                return ("list", out)
             if m == "chunks_exact" and len(args) == 1 and isinstance(args[0], int) and args[0] > 0:
                 n_ = args[0]
                 full = len(items) // n_
@@ -1148,6 +1207,11 @@ class SymEval:
             r = self.h.match_path(v, pat[1])
             if r is not NotImplemented:
                 return r
+            if not pat[1].split("::")[-1][:1].islower() and pat[1].split("::")[-1].isupper():
+                # a constant used as a pattern: compare with its value
+                cv = self.h.path(pat[1])
+                if cv is not NotImplemented and self.concrete(cv) and self.concrete(v):
+                    return v == cv
             if isinstance(v, tuple) and v[0] == "enum":
                 return v[1].split("::")[-1] == name.split("::")[-1] and not v[2]
             return None
